@@ -164,3 +164,79 @@ def b_native(B):
     B.case("alternating_axes_same_length", bool(ok), detail="results depend on earlier calls with another axis")
     bad = native_estimation(rng, [1.0, 1e-3, 8e-5])
     B.case("delay_estimation", not bad, detail=bad[:6])
+
+
+# ----------------------------------------------------------------------------- delay estimation: where the zero lag sits
+@harness(PROPERTY, "corrmax_lag_origin", functions=["ibldsp.waveforms:wave_shift_corrmax"],
+         clause="the shift estimated from two copies is measured from the zero lag of the correlation (index n // 2 of a 'same' correlation, every parity) and the copy is moved back by exactly that amount")
+def h_corrmax(H):
+    import scipy.signal
+    S = H.session("corrmax")
+
+    def body(it):
+        n = z3.Int("n")
+        it.ctx.assume(n >= 3)
+        a = A.fresh_array("spike", "float64", (n,))
+        b = A.fresh_array("spike2", "float64", (n,))
+        ipeak = z3.Real("ipeak")
+        seen = {}
+
+        def correlate(it_, args, kw):
+            mode = kw.get("mode", args[2] if len(args) > 2 else "full")
+            seen["corr"] = (args[0], args[1], mode)
+            return A.fresh_array("xcorr", "float64", (n,) if mode == "same" else (2 * n - 1,))
+
+        def pmax(it_, args, kw):
+            seen["pmax_arg"] = args[0]
+            return (SV(ipeak), SV(z3.Real("maxi")))
+
+        def fsh(it_, args, kw):
+            seen["fshift"] = (args[0], args[1] if len(args) > 1 else kw.get("s"))
+            return A.fresh_array("resync", "float64", (n,))
+        it.session.contracts[scipy.signal.correlate] = correlate
+        it.session.contracts[U.parabolic_max] = pmax
+        it.session.contracts[F.fshift] = fsh
+        it.session.contracts[W.fshift] = fsh
+        out, shift = run_function(it, W.wave_shift_corrmax, [a, b])
+        it.ctx.oblige("corrmax.same_correlation_of_the_pair", z3.BoolVal(seen.get("corr") is not None and seen["corr"][0] is a and seen["corr"][1] is b and seen["corr"][2] == "same"), "post")
+        # A-SCIPY: the zero lag of correlate(x, y, 'same') for two signals of n samples is element n // 2
+        it.ctx.oblige("corrmax.shift_from_zero_lag", term(shift) == z3.ToReal(n / 2) - ipeak, "post", "shift = (zero-lag index n // 2) - (interpolated peak position), for even and odd n")
+        ok = "fshift" in seen and seen["fshift"][0] is b
+        it.ctx.oblige("corrmax.moves_the_second_copy", z3.BoolVal(ok), "post")
+        if ok:
+            it.ctx.oblige("corrmax.moved_back_by_the_estimate", term(seen["fshift"][1]) == -term(shift), "post")
+    S.explore(body)
+
+
+@harness(PROPERTY, "parabolic_max_scale_free", functions=["ibldsp.utils:parabolic_max (statements from the parabola fit 'poly = ...' to 'ipeak += imax')"],
+         clause="delay estimation does not depend on the amplitude of the traces: the interpolated peak position of a correlation is unchanged when it is scaled by a > 0")
+def h_parabolic(H):
+    import ast
+    from pyvc import interp as I
+    S = H.session("parabolic")
+
+    def body(it):
+        node, filename = I.SOURCES.funcdef(U.parabolic_max)
+        it.session.note_function(U.parabolic_max)
+        idx = [k for k, st in enumerate(node.body) if isinstance(st, ast.Assign) and ast.unparse(st.targets[0]) == "poly"]
+        end = [k for k, st in enumerate(node.body) if isinstance(st, ast.AugAssign) and ast.unparse(st.target) == "ipeak"]
+        if len(idx) != 1 or len(end) != 1 or end[0] < idx[0]:
+            raise Unsupported("cannot identify the parabola fit of parabolic_max")
+        part = node.body[idx[0]:end[0] + 1]
+        v0, v1, v2, a = z3.Reals("v0 v1 v2 a")
+        imax = z3.Int("imax")
+        it.ctx.assume(z3.And(a > 0, v1 >= v0, v1 >= v2, imax >= 1))      # v1 is the (first) maximum of the trace: what argmax returned
+        res = []
+        for scale in (z3.RealVal(1), a):
+            vals = [v0 * scale, v1 * scale, v2 * scale]
+            v010 = SArr(np.float64, (3, 1), lambda ix, vals=vals: z3.If(A.T(ix[0]) == 0, vals[0], z3.If(A.T(ix[0]) == 1, vals[1], vals[2])))
+            env = I.Env(None, U.parabolic_max.__globals__, qualname="parabolic_max", filename=filename)
+            env.funcnode = node
+            env.vars.update(dict(v010=v010, imax=SV(imax), x=None, ns=None))
+            it.ctx.func = env.qualname
+            it.exec_block(part, env)
+            res.append(env.vars["ipeak"])
+        r1, r2 = (A.as_sarr(r).read((z3.IntVal(0),)) for r in res)
+        it.ctx.oblige("parabolic_max.scale_free", r1 == r2, "post", "the interpolated peak position is the same for x and a * x (a > 0)")
+        it.ctx.oblige("parabolic_max.within_one_sample", z3.And(r1 - z3.ToReal(imax) >= -1, r1 - z3.ToReal(imax) <= 1), "post", "the interpolated peak lies within one sample of the maximum", assume=False)
+    S.explore(body)
